@@ -37,6 +37,10 @@ type Exec struct {
 	NoInline map[*ssa.Function]bool
 	// PanicIsEvent: record panics as events and stop the path
 	WatchEdges map[edge]bool
+	LazyPtr    bool // materialise unknown pointer fields on first load
+	// WidenAtEntry: explore, at every loop entry, one generic iteration (heap forgotten, loop phis unknown) that
+	// subsumes all iterations; concrete unrolling beyond Unroll visits is then simply cut. Keeps path counts linear.
+	WidenAtEntry bool
 	Stats      struct{ Instrs, Calls, Forks, Widen int }
 }
 
@@ -48,6 +52,7 @@ type Frame struct {
 	phiHist map[*ssa.Phi]Val // value at the previous visit of the loop head
 	kept    map[*ssa.Phi]keptInv // invariants kept at widening (checked inductively)
 	wctx    map[*ssa.BasicBlock]*widenCtx
+	generic map[*ssa.BasicBlock]bool
 	defers  []deferred
 	depth   int
 	stack   []*ssa.Function
@@ -80,8 +85,16 @@ func (st *State) subsumedBy(v Val, k keptInv) bool {
 		b, known := st.boolOf(x)
 		return k.isBool && known && b == k.b
 	case *IntV:
+		if k.isBool {
+			return false
+		}
 		l, h := st.Range(x)
-		return !k.isBool && l >= k.lo && h <= k.hi
+		if l >= k.lo && h <= k.hi {
+			return true
+		}
+		ge, k1 := st.Decide(">=", x, mkConst(k.lo, x.W, x.Signed))
+		le, k2 := st.Decide("<=", x, mkConst(k.hi, x.W, x.Signed))
+		return k1 && k2 && ge && le
 	}
 	return false
 }
@@ -125,6 +138,12 @@ func (fr *Frame) clone() *Frame {
 	}
 	for k, v := range fr.kept {
 		n.kept[k] = v
+	}
+	if fr.generic != nil {
+		n.generic = make(map[*ssa.BasicBlock]bool, len(fr.generic))
+		for k, v := range fr.generic {
+			n.generic[k] = v
+		}
 	}
 	if fr.wctx != nil {
 		n.wctx = make(map[*ssa.BasicBlock]*widenCtx, len(fr.wctx))
@@ -206,6 +225,70 @@ func (ex *Exec) enter(fr *Frame, st *State, b *ssa.BasicBlock, prev *ssa.BasicBl
 			phis = append(phis, phi)
 			vals = append(vals, ex.eval(fr, st, phi.Edges[idx]))
 		}
+	}
+	if isHead && prev != nil && ex.WidenAtEntry {
+		li := ex.loopHeads(fr.fn)[b]
+		if !li.Body[prev] {
+			// loop entry: generic iteration first, then the concrete prefix
+			st2, fr2 := st.Clone(), fr.clone()
+			if fr2.generic == nil {
+				fr2.generic = map[*ssa.BasicBlock]bool{}
+			}
+			fr2.generic[b] = true
+			ex.Stats.Widen++
+			ex.havocAll(st2, "generic iteration of loop in "+fr.fn.Name())
+			if fr2.kept == nil {
+				fr2.kept = map[*ssa.Phi]keptInv{}
+			}
+			for i, phi := range phis {
+				// monotone induction variables keep their starting bound as a candidate invariant
+				// (checked to be inductive when the generic iteration comes back to the head)
+				if iv, ok := vals[i].(*IntV); ok {
+					if c0, ok := st.ConstOf(iv); ok {
+						if k, ok := phiStep(phi, li); ok && k != 0 {
+							r := st2.freshInt("ind:"+phi.Name(), iv.W, iv.Signed)
+							lo, hi := typeRange(iv.W, iv.Signed)
+							if k > 0 {
+								lo, hi = c0, hi-k
+							} else {
+								lo, hi = lo-k, c0
+							}
+							st2.refineSym(r.T.Syms[0], lo, hi)
+							fr2.regs[phi] = r
+							fr2.kept[phi] = keptInv{lo: lo, hi: hi}
+							continue
+						}
+					}
+				}
+				fr2.regs[phi] = ex.topOf(st2, phi.Type(), "loop:"+phi.Name())
+			}
+			outs := ex.execFrom(fr2, st2, b, firstNonPhi(b), prev)
+			fr.visits[b] = 0
+			if fr.generic != nil {
+				delete(fr.generic, b)
+			}
+			for i, phi := range phis {
+				fr.regs[phi] = vals[i]
+			}
+			return append(outs, ex.execFrom(fr, st, b, firstNonPhi(b), prev)...)
+		}
+		// back edge
+		if fr.generic[b] {
+			for i, phi := range phis {
+				if kv, ok := fr.kept[phi]; ok && !st.subsumedBy(vals[i], kv) {
+					ex.unsupported("loop invariant of " + fr.fn.Name() + ":" + phi.Name() + " not inductive")
+				}
+			}
+			return nil
+		}
+		fr.visits[b]++
+		if fr.visits[b] > ex.Unroll {
+			return nil // subsumed by the generic iteration explored at loop entry
+		}
+		for i, phi := range phis {
+			fr.regs[phi] = vals[i]
+		}
+		return ex.execFrom(fr, st, b, firstNonPhi(b), prev)
 	}
 	if isHead && prev != nil {
 		fr.visits[b]++
@@ -834,6 +917,9 @@ func (ex *Exec) binop(fr *Frame, st *State, x *ssa.BinOp) Val {
 		switch x.Op {
 		case token.SHL, token.SHR:
 			if k, ok := st.ConstOf(bi); ok && k >= 0 {
+				if x.Op == token.SHR {
+					return st.ShiftR(ai, int(k))
+				}
 				return st.Shift(x.Op, ai, int(k))
 			}
 			// variable shift: unknown, but bounded for right shifts of non-negative values
@@ -993,6 +1079,39 @@ func (ex *Exec) compare(st *State, op token.Token, a, b Val) Val {
 			return st.nilTest(o, op)
 		}
 	case *StrV:
+		if y, ok := b.(*StrV); ok && (op == token.EQL || op == token.NEQ) && x.Known != y.Known {
+			// tracked bytes against a literal
+			k, t := x, y
+			if y.Known {
+				k, t = y, x
+			}
+			if t.Bytes != nil {
+				if elems, ok := ex.sliceElems(st, t.Bytes); ok {
+					if len(elems) != len(k.S) {
+						return &BoolV{Known: true, Val: op == token.NEQ}
+					}
+					all := true
+					for i, e := range elems {
+						iv, _ := e.(*IntV)
+						if iv == nil {
+							all = false
+							continue
+						}
+						v, kn := st.Decide("==", iv, mkConst(int64(k.S[i]), 8, false))
+						if kn && !v {
+							return &BoolV{Known: true, Val: op == token.NEQ}
+						}
+						if !kn {
+							all = false
+						}
+					}
+					if all {
+						return &BoolV{Known: true, Val: op == token.EQL}
+					}
+				}
+			}
+			return &BoolV{}
+		}
 		if y, ok := b.(*StrV); ok && x.Known && y.Known {
 			var r bool
 			switch op {
@@ -1155,4 +1274,36 @@ func (st *State) nilTest(v Val, op token.Token) *BoolV {
 		return &BoolV{Not: b}
 	}
 	return b
+}
+
+// phiStep: if every back-edge value of the loop phi is phi + k (or phi - k) for one constant k, return k.
+func phiStep(phi *ssa.Phi, li *loopInfo) (int64, bool) {
+	var step int64
+	found := false
+	for i, e := range phi.Edges {
+		pred := phi.Block().Preds[i]
+		if !li.Body[pred] {
+			continue
+		}
+		bo, ok := e.(*ssa.BinOp)
+		if !ok || bo.X != phi {
+			return 0, false
+		}
+		k, ok := constInt(bo.Y)
+		if !ok {
+			return 0, false
+		}
+		switch bo.Op {
+		case token.ADD:
+		case token.SUB:
+			k = -k
+		default:
+			return 0, false
+		}
+		if found && k != step {
+			return 0, false
+		}
+		step, found = k, true
+	}
+	return step, found
 }
